@@ -34,7 +34,7 @@ META = {
     'functions_encoded': ['numdifftools.fornberg.fd_weights_all', 'numdifftools.fornberg._fd_weights_all',
                           'numdifftools.fornberg.fd_weights'],
     'bounds': 'fully symbolic nodes and x0 for m=2..4, all n<m; concrete rational node sets m=5..14 (uniform, Chebyshev-like, '
-              'clustered, one-sided, seeded random, permuted) with symbolic x0 and symbolic polynomial, all n<m (both tiers)',
+              'clustered, one-sided, seeded random, permuted; spacings 1/1024 and 1024 for m=5,7) with symbolic x0 and symbolic polynomial, all n<m (both tiers)',
     'outside_claim': ['floating-point rounding scaled by node conditioning', 'fully symbolic nodes for m>=5 (does not finish)'],
     'stubs': ['module global np -> symbolic numpy proxy (the float weights buffer is widened to object dtype)'],
     'assumptions': ['exact arithmetic', 'nodes pairwise distinct'],
@@ -51,6 +51,9 @@ def node_sets(m, seed):
         'clustered': [F(1, 2 ** i) for i in range(m)],
         'onesided': [F(i * i + 1, 8) for i in range(m)],
         'random': sorted({F(int(rng.integers(-4096, 4096)), 1024) for _ in range(3 * m)})[:m],
+        # spacings far from 1: the rows of the weight table then differ by many orders of magnitude (row k scales like h**-k)
+        'tiny': [F(i - m // 2, 1024) for i in range(m)],
+        'wide': [F((i - m // 2) * 1024) for i in range(m)],
     }
     perm = list(sets['uniform'])
     rng.shuffle(perm)
@@ -67,6 +70,9 @@ def jobs(tier, seed):
     mmax = 14
     for m in range(5, mmax + 1):
         for fam in ('uniform', 'cheb', 'clustered', 'onesided', 'random', 'permuted'):
+            out.append(('concrete-m%d-%s' % (m, fam), dict(kind='concrete', m=m, family=fam, seed=seed)))
+    for m in (5, 7):
+        for fam in ('tiny', 'wide'):
             out.append(('concrete-m%d-%s' % (m, fam), dict(kind='concrete', m=m, family=fam, seed=seed)))
     for m in (2, 3, 6):
         out.append(('wrappers-m%d' % m, dict(kind='wrappers', m=m, family='uniform', seed=seed)))
